@@ -28,6 +28,13 @@ def braid_suite(ctx, vh):
     # STRETCH: chains of up to 14 commands cross MIN_SKIP_GAP (10) so skip lists are built
     sub = verif.sample(ctx.rng, n4.replays, 700 if not ctx.thorough else 3000)
     out += ctx.run_engine(vh, "braid", sub, opts={"twin": 1, "index": 1, "stretch": 14}, tag="braid-stretch")
+    # ladder family: one convergence point per rung in a single braid (> 768: ConvergenceMap spill,
+    # > 256 braided commands: BraidResult spill); decided on C02's own predicate and twin equality
+    ladders = [{"rungs": r, "side": s} for r in (3, 90, 300, 900) for s in (1, 4)]
+    if ctx.thorough:
+        ladders += [{"rungs": r, "side": s} for r in (1500, 2500) for s in (2, 40)]
+    out += ctx.run_engine(vh, "braid", ladders, tag="ladder", timeout=1800)
+    ctx.cov["ladder_cases"] = ladders
     if ctx.thorough:
         n5 = ctx.tlc("MC_Braid", "MC_Braid_N5.cfg", timeout=3000, cache=True, subst=_salt(ctx))
         ctx.cov["braid_cases"]["N5_sampled"] = len(n5.replays)
